@@ -1488,12 +1488,14 @@ impl<'l> CelCompiler<'l> {
         let bc = member_prime_node.into_unresolved_bytecode().resolve();
         self.bindings.take_non_const();
         let r = i.run_raw(&bc, true);
-
-        #[cfg(rscel_verif)]
-        crate::verif::emit(crate::verif::Event::ConstFold { folded: r.is_ok() });
         // a result that depended on a name without a compile-time meaning (a variable, a
         // user function) or on the clock is not a constant, even if the failure was absorbed
         let non_const = self.bindings.take_non_const();
+
+        #[cfg(rscel_verif)]
+        crate::verif::emit(crate::verif::Event::ConstFold {
+            folded: r.is_ok() && !non_const,
+        });
 
 
         match r {
